@@ -301,6 +301,18 @@ func build(api PkgAPI, t reflect.Type, j any) reflect.Value {
 			if m, ok := j.(map[string]any); ok && m["$absent"] == true {
 				return v
 			}
+			if m, ok := j.(map[string]any); ok && m["$raw"] != nil {
+				// set the wrapper's fields directly (also states Decode never produces)
+				raw := m["$raw"].(map[string]any)
+				if hasSet {
+					v.FieldByName("Set").SetBool(raw["Set"] == true)
+				}
+				if hasNull {
+					v.FieldByName("Null").SetBool(raw["Null"] == true)
+				}
+				v.FieldByName("Value").Set(build(api, t.Field(0).Type, raw["Value"]))
+				return v
+			}
 			if j == nil && hasNull {
 				v.FieldByName("Null").SetBool(true)
 				if hasSet {
